@@ -1,8 +1,57 @@
 package sim
 
 import (
+	"fmt"
+
 	_state "github.com/mosaicnetworks/babble/src/node/state"
 )
+
+// describe gives a one-line summary of every node (for violation messages).
+func (c *Cluster) describe() string {
+	s := ""
+	for _, n := range c.nodes {
+		if !n.started {
+			s += fmt.Sprintf("[n%d not started] ", n.idx)
+			continue
+		}
+		if !n.running() {
+			s += fmt.Sprintf("[n%d down crashed=%v dead=%v left=%v] ", n.idx, n.crashed, n.dead, n.left)
+			continue
+		}
+		core := n.core()
+		h := core.Hashgraph()
+		lcr := -1
+		if h.LastConsensusRound != nil {
+			lcr = *h.LastConsensusRound
+		}
+		tk := ""
+		if n.task != nil && !n.task.done {
+			tk = " task=" + n.task.kind
+		}
+		s += fmt.Sprintf("[n%d %s silent=%v busy=%v lcr=%d lastRound=%d target=%d accepted=%d removed=%d blk=%d und=%d pools=%d/%d/%d pendLoaded=%d seq=%d peers=%d vals=%d%s] ",
+			n.idx, n.state(), n.silent, core.Busy(), lcr, h.Store.LastRound(), core.TargetRound(), core.AcceptedRound(), core.RemovedRound(),
+			h.Store.LastBlockIndex(), len(h.UndeterminedEvents), len(core.TransactionPool()), len(core.InternalTransactionPool()), len(core.SelfBlockSignatures()),
+			h.PendingLoadedEvents, core.Seq(), core.Peers().Len(), core.Validators().Len(), tk)
+	}
+	for _, n := range c.liveBabbling() {
+		h := n.core().Hashgraph()
+		s += fmt.Sprintf(" loaded-undetermined@n%d:", n.idx)
+		for _, x := range h.UndeterminedEvents {
+			ev, err := h.Store.GetEvent(x)
+			if err != nil || !ev.IsLoaded() {
+				continue
+			}
+			cr := c.byPub[ev.Creator()]
+			ci := -1
+			if cr != nil {
+				ci = cr.idx
+			}
+			s += fmt.Sprintf(" (n%d#%d round=%d rr=%d txs=%d itxs=%d sp=%v op=%v)", ci, ev.Index(), ev.SimRound(), ev.SimRoundReceived(), len(ev.Transactions()), len(ev.InternalTransactions()), ev.SelfParent() != "", ev.OtherParent() != "")
+		}
+		break
+	}
+	return s
+}
 
 // opRejoin: a persistent node that left the network earlier is restarted with
 // bootstrap (it is no longer in its own peer list, hence Joining) and asks to
@@ -50,35 +99,96 @@ func (c *Cluster) fairSuffix(spec *runSpec) {
 			c.exec(&Step{Op: "synclimit", A: n.idx, N: c.cfg.SyncLimit})
 		}
 	}
+	c.fairBoundV = c.computeFairBound()
+	if c.fairBoundV > 120 {
+		// too expensive to run to the bound within a run's budget: no verdict
+		c.stats.probe("fair-suffix-skipped-backlog")
+		c.fairBoundV = 0
+		return
+	}
 	bound := c.fairBound()
-	c.fairCyclesUsed = -1
 	for i := 0; i < bound; i++ {
 		c.exec(&Step{Op: "fair"})
 		if c.stopNow(spec) {
 			return
 		}
-		if c.quiescent() {
-			c.fairCyclesUsed = i + 1
+		if c.fairQuiescentAt > 0 {
 			break
 		}
 	}
-	c.stats.probeMax("fair-cycles-max", c.fairCyclesUsed)
+	c.stats.probeMax("fair-cycles-max", c.fairQuiescentAt)
 }
 
-func (c *Cluster) fairBound() int { return 60 }
+// fairBound: K = 30 + 4*ceil(backlog / (syncLimit*(m-1))) all-pairs cycles,
+// where backlog is the largest number of events any live node lacks at the
+// start of the suffix and m the number of live nodes. Far above what the
+// algorithm needs (a handful of cycles in the benign case).
+func (c *Cluster) fairBound() int {
+	if c.fairBoundV > 0 {
+		return c.fairBoundV
+	}
+	return 30
+}
+
+func (c *Cluster) computeFairBound() int {
+	live := c.liveBabbling()
+	maxKnown := map[uint32]int{}
+	for _, n := range live {
+		for id, k := range n.core().KnownEvents() {
+			if cur, ok := maxKnown[id]; !ok || k > cur {
+				maxKnown[id] = k
+			}
+		}
+	}
+	backlog := 0
+	for _, n := range live {
+		kn := n.core().KnownEvents()
+		lack := 0
+		for id, mk := range maxKnown {
+			k, ok := kn[id]
+			if !ok {
+				k = -1
+			}
+			if mk > k {
+				lack += mk - k
+			}
+		}
+		if lack > backlog {
+			backlog = lack
+		}
+	}
+	m := len(live)
+	if m < 2 {
+		return 30
+	}
+	lim := c.cfg.SyncLimit
+	if lim < 1 {
+		lim = 1
+	}
+	per := lim * (m - 1)
+	return 30 + 4*((backlog+per-1)/per)
+}
 
 // quiescent: no live babbling node is busy and no task is pending.
 func (c *Cluster) quiescent() bool {
 	if !c.allIdle() {
 		return false
 	}
+	// a pending membership request counts only if it was accepted by a live node
 	for _, t := range c.tasks {
-		if !t.done {
+		if t.done || !t.n.running() || t.n.silent {
+			continue
+		}
+		holder := t.via
+		if holder == nil {
+			holder = t.n
+		}
+		if holder.running() && !holder.silent && holder.state() == _state.Babbling {
 			return false
 		}
 	}
 	for _, n := range c.nodes {
-		if n.running() && (n.state() == _state.Joining || n.state() == _state.CatchingUp) {
+		if n.running() && !n.silent && n.state() == _state.CatchingUp {
 			return false
 		}
 	}
